@@ -583,13 +583,30 @@ pub fn run_recip(scn: &Scenario, ctx: &mut Ctx) {
         }
         // recipient list: ids 0..5 by 3-bit fields, duplicates allowed
         let nrec = 1 + (st.arg(1) % 5) as usize;
-        let scheme: u8 = if thorough && st.arg(3) % 4 == 0 { keys::ENC_MLKEM512 } else { keys::ENC_X25519 };
-        if scheme != keys::ENC_X25519 {
+        // key-encapsulation scheme of each party id: all X25519, all ML-KEM-512 (thorough), or MIXED
+        // (X25519, ML-KEM-512 and ML-KEM-768 keys in one recipient list)
+        let mode = st.arg(3) % 8;
+        let _ = thorough;
+        let scheme_of = move |id: u8| -> u8 {
+            match mode {
+                1 => keys::ENC_MLKEM512,
+                2 | 3 => [keys::ENC_X25519, keys::ENC_MLKEM512, keys::ENC_MLKEM768][(id % 3) as usize],
+                _ => keys::ENC_X25519,
+            }
+        };
+        if mode >= 1 && mode <= 3 {
+            // ML-KEM encapsulation draws from the OS: nothing derived from it may enter the trace
             ctx.fenced = true;
+            ctx.probe("ml-kem-recipient");
         }
+        if mode == 2 || mode == 3 {
+            ctx.probe("mixed-encapsulation-schemes");
+        }
+        let scheme = keys::ENC_X25519;
+        let _ = scheme;
         let ids: Vec<u8> = (0..nrec).map(|k| ((st.arg(2) >> (3 * k)) % 6) as u8).collect();
         let listed: BTreeSet<u8> = ids.iter().cloned().collect();
-        let pks: Vec<_> = ids.iter().map(|id| keys::encap(scheme, *id).1).collect();
+        let pks: Vec<_> = ids.iter().map(|id| keys::encap(scheme_of(*id), *id).1).collect();
         let refs: Vec<&dyn bc_envelope::Encrypter> = pks.iter().map(|p| p as &dyn bc_envelope::Encrypter).collect();
         if ids.len() != listed.len() {
             ctx.probe("duplicate-recipient");
@@ -604,7 +621,10 @@ pub fn run_recip(scn: &Scenario, ctx: &mut Ctx) {
                     continue;
                 }
                 let base = if whole { orig.wrap_envelope() } else { orig.clone() };
-                let enc = match guarded(|| base.encrypt_subject_to_recipients(&refs)) {
+                if matches!(om.kind(), MKind::Wrapped(_)) && om.obsc().is_clear() && whole {
+                    ctx.probe("whole-form-of-a-wrapped-original");
+                }
+                let enc = match guarded(|| if whole && refs.len() == 1 { Ok(orig.encrypt_to_recipient(refs[0])) } else { base.encrypt_subject_to_recipients(&refs) }) {
                     Ok(Ok(e)) => e,
                     Ok(Err(e)) => {
                         ctx.checked();
@@ -631,7 +651,7 @@ pub fn run_recip(scn: &Scenario, ctx: &mut Ctx) {
                     }
                 };
                 for id in 0..6u8 {
-                    let (sk, _) = keys::encap(scheme, id);
+                    let (sk, _) = keys::encap(scheme_of(id), id);
                     ctx.checked();
                     let r = guarded(|| if whole { delivered.decrypt_to_recipient(&sk) } else { delivered.decrypt_subject_to_recipient(&sk) });
                     match (r, listed.contains(&id)) {
@@ -646,7 +666,8 @@ pub fn run_recip(scn: &Scenario, ctx: &mut Ctx) {
                         (Ok(Err(_)), false) => {
                             ctx.fault("key.wrong");
                         }
-                        (Err(p), _) => ctx.violate_sig("C16.no-panic", format!("decrypt_to_recipient panicked: {}", p), p),
+                        (Err(p), true) => ctx.violate_sig("C10.listed", format!("listed recipient {} of {:?} cannot decrypt: decrypt_to_recipient panicked: {}", id, ids, p), p),
+                        (Err(p), false) => ctx.violate_sig("C10.unlisted", format!("an unlisted private key ({}) got a panic instead of an error: {}", id, p), p),
                     }
                 }
                 ctx.t(&format!("{} recipients={:?}", op, ids));
@@ -671,7 +692,7 @@ pub fn run_recip(scn: &Scenario, ctx: &mut Ctx) {
                     None => continue,
                 };
                 let late_id = ((st.arg(2) >> 20) % 6) as u8;
-                let (_, late_pk) = keys::encap(scheme, late_id);
+                let (_, late_pk) = keys::encap(scheme_of(late_id), late_id);
                 let e2 = first.add_recipient(&late_pk, &ck);
                 ctx.probe("recipient-added-later");
                 let second = match transmit(ctx, &e2) {
@@ -681,7 +702,7 @@ pub fn run_recip(scn: &Scenario, ctx: &mut Ctx) {
                 let mut all = listed.clone();
                 all.insert(late_id);
                 for id in 0..6u8 {
-                    let (sk, _) = keys::encap(scheme, id);
+                    let (sk, _) = keys::encap(scheme_of(id), id);
                     ctx.checked();
                     match (guarded(|| second.decrypt_subject_to_recipient(&sk)), all.contains(&id)) {
                         (Ok(Ok(x)), true) => {
@@ -692,7 +713,8 @@ pub fn run_recip(scn: &Scenario, ctx: &mut Ctx) {
                         (Ok(Err(e)), true) => ctx.violate("C10.late", format!("recipient {} can no longer decrypt after a recipient was added: {}", id, e)),
                         (Ok(Ok(_)), false) => ctx.violate("C10.unlisted", format!("unlisted private key {} decrypted the envelope", id)),
                         (Ok(Err(_)), false) => ctx.fault("key.wrong"),
-                        (Err(p), _) => ctx.violate_sig("C16.no-panic", format!("decrypt_subject_to_recipient panicked: {}", p), p),
+                        (Err(p), true) => ctx.violate_sig("C10.late", format!("recipient {} cannot decrypt after a recipient was added: panic: {}", id, p), p),
+                        (Err(p), false) => ctx.violate_sig("C10.unlisted", format!("an unlisted private key ({}) got a panic instead of an error: {}", id, p), p),
                     }
                 }
                 ctx.t(&format!("R.Late {:?}+{}", ids, late_id));
@@ -702,7 +724,7 @@ pub fn run_recip(scn: &Scenario, ctx: &mut Ctx) {
                 let sid = ((st.arg(3) >> 4) % 3) as u8;
                 let (ssk, spk) = keys::signing(ssch, sid);
                 let rid = ids[0];
-                let (rsk, rpk) = keys::encap(scheme, rid);
+                let (rsk, rpk) = keys::encap(scheme_of(rid), rid);
                 let sealed = match guarded(|| orig.seal_opt(&ssk, &rpk, keys::sig_options(ssch))) {
                     Ok(e) => e,
                     Err(p) => {
@@ -725,7 +747,7 @@ pub fn run_recip(scn: &Scenario, ctx: &mut Ctx) {
                     Err(p) => ctx.violate_sig("C16.no-panic", format!("unseal panicked: {}", p), p),
                 }
                 let (_, wrong_spk) = keys::signing(ssch, (sid + 1) % 3);
-                let (wrong_rsk, _) = keys::encap(scheme, (rid + 1) % 6);
+                let (wrong_rsk, _) = keys::encap(scheme_of((rid + 1) % 6), (rid + 1) % 6);
                 ctx.fault("key.wrong");
                 if let Ok(Ok(_)) = guarded(|| delivered.unseal(&wrong_spk, &rsk)) {
                     ctx.violate("C10.seal", "unseal succeeded with a wrong sender key".to_string());
@@ -735,7 +757,7 @@ pub fn run_recip(scn: &Scenario, ctx: &mut Ctx) {
                 }
                 // misrouted: another party's sealed envelope
                 ctx.fault("net.misroute");
-                let other_sealed = orig.add_assertion("x", 1).seal_opt(&ssk, &keys::encap(scheme, (rid + 2) % 6).1, keys::sig_options(ssch));
+                let other_sealed = orig.add_assertion("x", 1).seal_opt(&ssk, &keys::encap(scheme_of((rid + 2) % 6), (rid + 2) % 6).1, keys::sig_options(ssch));
                 if let Ok(Ok(_)) = guarded(|| other_sealed.unseal(&spk, &rsk)) {
                     ctx.violate("C10.unlisted", "a party opened a sealed envelope addressed to someone else".to_string());
                 }
@@ -762,7 +784,7 @@ pub fn run_recip(scn: &Scenario, ctx: &mut Ctx) {
                     Some(x) => x,
                     None => continue,
                 };
-                let (sk, _) = keys::encap(scheme, ids[0]);
+                let (sk, _) = keys::encap(scheme_of(ids[0]), ids[0]);
                 ctx.checked();
                 match guarded(|| delivered.decrypt_subject_to_recipient(&sk)) {
                     Ok(Ok(x)) => {
@@ -944,7 +966,7 @@ pub fn run_sskr(scn: &Scenario, ctx: &mut Ctx) {
                 Ok(Ok(x)) => {
                     if !ident(&x, &expected_subject) {
                         ctx.violate("C11.never-wrong", format!("{}: join returned an envelope that is not the original decrypted subject", what));
-                    } else if strict && !met {
+                    } else if strict && !met && extra.is_empty() {
                         ctx.violate("C11.iff", format!("{}: join succeeded although the subset {:?} does not satisfy the policy {:?}/{}", what, idxs, groups, gt));
                     }
                 }
@@ -1025,10 +1047,20 @@ pub fn run_sskr(scn: &Scenario, ctx: &mut Ctx) {
                     if subset.is_empty() {
                         continue;
                     }
-                    let nf = r.range(1, 3) as usize;
+                    let nf = r.range(1, 2) as usize; // below the foreign split's own threshold of 2 when nf == 1
                     let extra: Vec<Envelope> = shares2.iter().take(nf).cloned().collect();
                     ctx.fault("net.misroute");
-                    join_check(ctx, &subset, false, "with foreign shares", &flat, &extra);
+                    // identifiers of the two splits (16 bit): when they differ, stray shares of another split
+                    // must not prevent a quorum of the first-listed split from being found
+                    let ident_of = |e: &Envelope| -> Option<u16> { e.assertions_with_predicate(known_values::SSKR_SHARE).first().and_then(|a| a.as_object()).and_then(|o| o.extract_subject::<bc_components::SSKRShare>().ok()).map(|s| s.identifier()) };
+                    let distinct_ids = match (ident_of(&flat[0].1), ident_of(&shares2[0])) {
+                        (Some(a), Some(b)) => a != b,
+                        _ => false,
+                    };
+                    if !distinct_ids {
+                        ctx.probe("identifier-collision");
+                    }
+                    join_check(ctx, &subset, distinct_ids && nf == 1, "with foreign shares", &flat, &extra);
                 }
                 ctx.probe("foreign-share");
             }
@@ -1172,6 +1204,12 @@ pub fn run_proof(scn: &Scenario, ctx: &mut Ctx) {
                         }
                         mark(&dm, &targets, &mut on_path, &mut interior);
                         for pos in rec.m.positions() {
+                            // (revealing works by digest: another occurrence of an on-path element that happens to be
+                            // compressed/encrypted in the source stays as it is, and it discloses nothing off the paths)
+                            if pos.is_obscured() && pos.obsc() != Obsc::Elided && !on_path.contains(&pos.digest()) {
+                                ctx.violate("C12.minimal", "a proof carries a compressed or encrypted element where only an elided digest may appear".to_string());
+                                break;
+                            }
                             if !pos.is_obscured() {
                                 if !on_path.contains(&pos.digest()) {
                                     ctx.violate("C12.minimal", "a proof discloses an element that is not on a path from the root to a target".to_string());
